@@ -1,8 +1,8 @@
-\* a seeded random subset of SampleK documents of every stratum of MC_thorough.cfg (strata smaller than SampleK are complete) + all single-fault mutations
+\* a seeded random subset of SampleK documents of every stratum of MC_thorough.cfg (strata smaller than SampleK are complete; v0kube: SampleK/2) + all single-fault mutations
 SPECIFICATION Spec
 CONSTANTS
-  Strata = {"kopt", "kopt2", "ksel", "cross", "crossrej", "cross2", "sched", "hooks", "fault"}
+  Strata = {"kopt", "kopt2", "ksel", "cross", "crossrej", "cross2", "sched", "hooks", "fault", "v0kube", "v0sched", "v0fault"}
   SampleK = 1000
   AsIs = FALSE
-INVARIANTS DomainWellFormed FaithfulLoad Defaults FaultRejected GroupSnapshots Emit
+INVARIANTS DomainWellFormed FaithfulLoad Defaults LegacyLoad FaultRejected GroupSnapshots Emit
 CHECK_DEADLOCK FALSE
